@@ -337,6 +337,8 @@ def generate(workdir='/verif/work'):
          'def deriveEnumArm : List Nat := %s' % lbytes(en),
          '/-- `next` of a derived struct -/',
          'def deriveStructArm : List Nat := %s' % lbytes(st),
+         '/-- the conversions that do not destructure a tuple (`Locate`, `Vec<T>`, `Option<T>`, `Box<T>`): (type, body with white space normalised) -/',
+         'def convGeneric : List (String × String) := [%s]' % ', '.join('(%s, %s)' % (lstr(k), lstr(r)) for k, r in conv_opaque),
          'def nKinds : Nat := %d' % (len(tr.kinds) + 1),
          'end Sv.Gen', '']
     if write_if_changed(os.path.join(GEN, 'Conv.lean'), '\n'.join(c)): changed.append('Conv')
